@@ -493,6 +493,8 @@ reg(Zoo(
                 ],
             )),
             S('K3', defer=['el']),
+            # K4 / K5: a state whose ONLY row for the event is a base-class row (one and two inheritance levels)
+            S('K4'), S('K5'),
         ],
         initial=['K1'],
         rows=[
@@ -506,6 +508,10 @@ reg(Zoo(
             R('KSub', '*', None),
             R('K3', 'ey', 'K1', a=False, g=False),
             R('K3', 'ex', 'K2', a=False, g=False),
+            R('K2', 'ey', 'K4', a=False, g=False),
+            R('K4', 'em', 'K1'),
+            R('K4', 'ex', 'K5', a=False, g=False),
+            R('K5', 'eb', 'K1'),
         ],
     ),
 ))
